@@ -2,10 +2,11 @@
 (***************************************************************************)
 (* The per-connection attribute block of s3db (sqlite/vtable.go S3DBConn,  *)
 (* sqlite/s3db_conn.go) as a state machine: write_time and deadline are    *)
-(* set, cleared and read back through the s3db_conn table; BEGIN fixes one *)
-(* write time for a transaction that has none; statements are stamped with *)
-(* the write time in force; an expired deadline fails the calls issued     *)
-(* while it is set.  Generator for C15 (and the attribute part of C19):    *)
+(* set, cleared and read back through the s3db_conn table; the first write *)
+(* of a transaction that has no write time fixes one real-clock time for   *)
+(* the rest of it (SQLite calls xBegin at the first write, not at BEGIN);  *)
+(* statements are stamped with the write time in force; an expired         *)
+(* deadline fails the calls issued while it is set.  Generator for C15 (and the attribute part of C19):    *)
 (* every operation carries the EXPECTED stamp / read-back values, which    *)
 (* the monitor compares with the registers and results of the real code.   *)
 (***************************************************************************)
@@ -20,44 +21,47 @@ Now == -999          \* "the real clock": the harness logs any real-clock time a
 VARIABLES wt,       \* the write_time the user set (Unset = none)
           dl,       \* "none" | "future" | "past"
           intx,     \* inside BEGIN..COMMIT
-          txnow,    \* the transaction was begun without a write_time: one real-clock time is in force for it
+          vbegun,   \* the table has joined the transaction (SQLite calls xBegin at the FIRST WRITE of a transaction, not at BEGIN)
+          txnow,    \* ... and had no write_time then: one real-clock time is in force for the rest of the transaction
           nst, nops, hist
-vars == <<wt, dl, intx, txnow, nst, nops, hist>>
+vars == <<wt, dl, intx, vbegun, txnow, nst, nops, hist>>
 
-Init == wt = Unset /\ dl = "none" /\ intx = FALSE /\ txnow = FALSE /\ nst = 0 /\ nops = 0 /\ hist = <<>>
+Init == wt = Unset /\ dl = "none" /\ intx = FALSE /\ vbegun = FALSE /\ txnow = FALSE /\ nst = 0 /\ nops = 0 /\ hist = <<>>
 
 Stamp == IF wt # Unset THEN wt ELSE Now
 Step(rec) == nops < MaxOps /\ nops' = nops + 1 /\ hist' = Append(hist, rec)
 
 SetWT(t) == /\ Step([op |-> "set_wt", t |-> t])
-            /\ wt' = t /\ txnow' = FALSE /\ UNCHANGED <<dl, intx, nst>>
+            /\ wt' = t /\ txnow' = FALSE /\ UNCHANGED <<dl, intx, vbegun, nst>>
 (* clearing inside a transaction that runs on its BEGIN time would give its later statements separate times: not generated *)
 ClearWT == /\ wt # Unset
            /\ Step([op |-> "clear_wt"])
-           /\ wt' = Unset /\ txnow' = FALSE /\ UNCHANGED <<dl, intx, nst>>
+           /\ wt' = Unset /\ txnow' = FALSE /\ UNCHANGED <<dl, intx, vbegun, nst>>
 (* deadlines are exercised outside transactions *)
 SetDL(k) == /\ ~intx /\ dl # k
             /\ Step([op |-> "set_dl", kind |-> k])
-            /\ dl' = k /\ UNCHANGED <<wt, intx, txnow, nst>>
+            /\ dl' = k /\ UNCHANGED <<wt, intx, vbegun, txnow, nst>>
 ClearDL == /\ ~intx /\ dl # "none"
            /\ Step([op |-> "clear_dl"])
-           /\ dl' = "none" /\ UNCHANGED <<wt, intx, txnow, nst>>
+           /\ dl' = "none" /\ UNCHANGED <<wt, intx, vbegun, txnow, nst>>
 Begin == /\ ~intx /\ dl # "past"
          /\ Step([op |-> "begin"])
-         /\ intx' = TRUE /\ txnow' = (wt = Unset) /\ UNCHANGED <<wt, dl, nst>>
+         /\ intx' = TRUE /\ vbegun' = FALSE /\ txnow' = FALSE /\ UNCHANGED <<wt, dl, nst>>
 End(o) == /\ intx
           /\ Step([op |-> o])
-          /\ intx' = FALSE /\ txnow' = FALSE /\ UNCHANGED <<wt, dl, nst>>
+          /\ intx' = FALSE /\ vbegun' = FALSE /\ txnow' = FALSE /\ UNCHANGED <<wt, dl, nst>>
 (* INSERT of a fresh key: stamped with the write time in force; fails iff the deadline has passed *)
 Stmt == /\ Step([op |-> "stmt", n |-> nst + 1, wt |-> Stamp, intx |-> intx, fails |-> (dl = "past")])
-        /\ nst' = nst + 1 /\ UNCHANGED <<wt, dl, intx, txnow>>
+        /\ vbegun' = (intx \/ vbegun)
+        /\ txnow' = IF intx /\ ~vbegun THEN (wt = Unset) ELSE txnow
+        /\ nst' = nst + 1 /\ UNCHANGED <<wt, dl, intx>>
 (* read the attributes back (not inside a transaction running on its BEGIN time: what write_time shows there is not decided) *)
 Get == /\ ~txnow
        /\ Step([op |-> "get", wt |-> wt, dl |-> dl])
-       /\ UNCHANGED <<wt, dl, intx, txnow, nst>>
+       /\ UNCHANGED <<wt, dl, intx, vbegun, txnow, nst>>
 Refresh == /\ ~intx
            /\ Step([op |-> "refresh", fails |-> (dl = "past")])
-           /\ UNCHANGED <<wt, dl, intx, txnow, nst>>
+           /\ UNCHANGED <<wt, dl, intx, vbegun, txnow, nst>>
 
 Done == nops = MaxOps /\ ~intx
 Next == /\ ~Done
@@ -67,6 +71,6 @@ Next == /\ ~Done
 Spec == Init /\ [][Next]_vars
 
 (* design-level sanity *)
-TxNowOnlyInTx == txnow => intx /\ wt = Unset
+TxNowOnlyInTx == txnow => intx /\ vbegun /\ wt = Unset
 Emit == (nops = MaxOps) => PrintT(<<"BEHAVIOUR", ToJson(hist)>>)
 =============================================================================
